@@ -14,7 +14,7 @@ if not ok and re.search(r"baseline-with-mutant: \d+ passed 0 failed", conf) and 
     conf += "  (demo crashed with the mutant)"
 if not ok:
     print("NOT CONFIRMED"); sys.exit(1)
-out = subprocess.run(["/verif/tools/try_mutant.sh", f"{wt}/_out/{letter}.diff"] + checks, capture_output=True, text=True).stdout
+out = subprocess.run(["/verif/tools/try_mutant.sh", f"{wt}/_out/{letter}.diff"] + checks, capture_output=True, text=True, errors="replace").stdout
 print(out)
 caught, missed, lines = [], [], {}
 cur = None
